@@ -87,7 +87,9 @@ pub fn scripts(n: usize, m: usize) -> Vec<Vec<(char, usize)>> {
     out
 }
 
-pub struct C10;
+/// `C10(false)`: the full property C10.  `C10(true)`: only the normal-form clause of C09 on
+/// arbitrary valid scripts pushed through Compact<Replace> (sub-check "C09b").
+pub struct C10(pub bool);
 
 fn feed<D: DiffHook>(ops: &[DiffOp], d: &mut D) -> Result<(), D::Error> {
     for op in ops {
@@ -99,7 +101,11 @@ fn feed<D: DiffHook>(ops: &[DiffOp], d: &mut D) -> Result<(), D::Error> {
 impl Prop for C10 {
     type Shape = Shape;
     fn id(&self) -> &'static str {
-        "C10"
+        if self.0 {
+            "C09b"
+        } else {
+            "C10"
+        }
     }
     fn shapes(&self, tier: Tier) -> Vec<Shape> {
         let max = match tier {
@@ -110,6 +116,10 @@ impl Prop for C10 {
         for n in 0..=max {
             for m in 0..=max {
                 for script in scripts(n, m) {
+                    if self.0 {
+                        v.push(Shape { n, m, script: script.clone(), pipe: Pipe::CompactReplace, layout: Layout::Slice { pre_o: 0, post_o: 0, pre_n: 0, post_n: 0 } });
+                        continue;
+                    }
                     for pipe in [Pipe::Compact, Pipe::Replace, Pipe::CompactReplace] {
                         v.push(Shape { n, m, script: script.clone(), pipe, layout: Layout::Slice { pre_o: 0, post_o: 0, pre_n: 0, post_n: 0 } });
                     }
@@ -188,7 +198,7 @@ impl Prop for C10 {
                 let out = d.into_inner().into_inner().into_ops();
                 let (d2, i2, _) = validate_ops(&out, &inp.old, inp.or.clone(), &inp.new, inp.nr.clone(), OpsCheck { exact_indices: false, normal_form: true });
                 claim!(
-                    d2 == del && i2 == ins,
+                    self.0 || (d2 == del && i2 == ins),
                     "Compact<Replace> changed the cost of the script: in {} deleted / {} inserted, out {} / {} (script {:?}, output {:?})",
                     del, ins, d2, i2, ops, out
                 );
@@ -246,7 +256,7 @@ impl Prop for C10 {
             bounds: format!("all valid scripts over sequences of lengths n,m in 0..={}: every lattice path (0,0)->(n,m) in unit steps equal/delete/insert, cut into runs in every way (split Equal runs, insert-before-delete, alternating runs), with exact carried indices; items symbolic, only the equalities stated by the script's Equal runs are assumed; pipelines Compact, Replace, Compact<Replace>; plus offset-lookup / padded layouts for n+m<=5", match tier { Tier::Quick => 4, Tier::Thorough => 6 }),
             outside: "longer sequences; scripts whose carried indices are not exact (the adapters' input contract)".into(),
             assumptions: vec!["the input script is valid: positive lengths, exact positions, Equal runs pair equal items (assumed into the path condition before the run)".into()],
-            required_witnesses: vec!["paths_that_took_a_compaction_swap", "scripts_with_insert_before_delete", "scripts_with_split_equal_runs", "paths_with_replace_call"],
+            required_witnesses: if self.0 { vec!["paths_that_took_a_compaction_swap", "scripts_with_split_equal_runs"] } else { vec!["paths_that_took_a_compaction_swap", "scripts_with_insert_before_delete", "scripts_with_split_equal_runs", "paths_with_replace_call"] },
             rule: "one state = one explored path = one script skeleton x one equality pattern of the items consistent with it".into(),
         }
     }
